@@ -6,6 +6,10 @@ CLAIMED = {
    text="Seeded deterministic simulation of update / set_ad_order / refused-update / clone histories on a live FXRates; after every step all n^2 rates, their variable names, gradients and Hessians are checked against a reference model (tree path product with closed-form log-derivative sensitivities, an independent name-keyed reference AD, and a fresh market built from the latest quotes). Sampling, not proof: histories and markets are drawn from a seeded PRNG; every failure is minimised and replayable.",
    note="Trusted: the reference model (refad.rs self-checked against finite differences at start-up), the tolerance model (running first-order error bound x 1e5 eps), rustc/serde. Not covered: reversed-pair or duplicate-pair updates (outcome not stated by the property); thread schedules (none exist: all mutation is behind &mut self).",
    technique="deterministic simulation: seeded operation histories with injected refused/late-failing updates vs reference model"),
+ "C12": dict(level="exploration", design="DESIGN.md §4 C12",
+   text="Seeded curves (five interpolation rules, float/Dual/Dual2 nodes, shuffled supply order, Rust CurveDF and the Python-facing Curve constructor) on each of which EVERY set_ad_order switch sequence over {0,1,2} up to depth 3 (quick) / 4-5 (thorough) is executed; after every switch every probed look-up and index value is compared in value, kind, variable names, gradient and Hessian with the rule's closed form evaluated in an independent reference AD under a tag state machine. The history dimension is exhaustive up to the bound per curve; curves and dates are sampled.",
+   note="Trusted: reference AD + closed forms in c12.rs (independent of rateslib's layout), tolerance model, the verif-hooks re-export of the crate-private Curve. Not covered: curves with nodes of mixed number kinds (tagging of those is not stated by the property).",
+   technique="deterministic simulation: exhaustive-to-depth set_ad_order histories on seeded curves vs reference model"),
 }
 NA = {
  "C01": "pure function of (expression, point, tagging): no history, fault, clock, I/O or interleaving for a simulator to control; its chain rules run incidentally inside the C10/C12 oracles but are not claimed",
